@@ -6,6 +6,7 @@ import io
 import os
 import random
 import sys
+import threading
 import time
 from typing import Any, Callable, Iterable, Optional
 
@@ -1370,16 +1371,20 @@ def multi_observe(ent: Any) -> tuple[str, list[str]]:
     return (kv.default if kv is not None else '?'), out
 
 
+ENGINE_DB_LOCK = threading.RLock()      # srctools.fgd._ENGINE_DB is process-wide: one user at a time (tie stages run beside the searches)
+
+
 @contextlib.contextmanager
 def engine_db_list(dbs: Optional[list]):
     """Run with srctools.fgd._ENGINE_DB replaced (None = not loaded yet); always restored."""
     from srctools import fgd as F
-    old = F._ENGINE_DB
-    F._ENGINE_DB = dbs
-    try:
-        yield
-    finally:
-        F._ENGINE_DB = old
+    with ENGINE_DB_LOCK:
+        old = F._ENGINE_DB
+        F._ENGINE_DB = dbs
+        try:
+            yield
+        finally:
+            F._ENGINE_DB = old
 
 
 def run_multi_impl(sc: dict) -> dict:
@@ -1730,7 +1735,8 @@ def locate_db_failure(fgd: Any, opts: dict) -> tuple[str, dict]:
 
 def search_bundled(ck: Ck) -> None:
     from srctools.fgd import FGD
-    fgd = FGD.engine_dbase()
+    with ENGINE_DB_LOCK:
+        fgd = FGD.engine_dbase()
     ck.extra['bundled_entities'] = len(fgd.entities)
     # quick tier: both syntaxes, once with and once without spawnflag labels; all four combinations in the thorough tier
     # and as soon as any tie is broken
@@ -2156,12 +2162,13 @@ def search_lazy(ck: Ck, data: bytes, tb: dict) -> None:
         ck.hist('lazy_round_len', len(order))
     # public API once: EntityDef.engine_def / FGD.engine_dbase on the process-wide cache
     from srctools.fgd import EntityDef, FGD
-    for q in rng.sample(names, 40) + alias_names[:5]:
-        if canon_ent(EntityDef.engine_def(q)) != eager[q]:
-            ck.violation('lazy-differs-from-eager:engine_def', f'EntityDef.engine_def({q!r}) differs from FGD.engine_dbase()',
-                         {'kind': 'lazy', 'query': q})
-        ck.count('search_lazy_lookups')
-    full = FGD.engine_dbase()
+    with ENGINE_DB_LOCK:
+        for q in rng.sample(names, 40) + alias_names[:5]:
+            if canon_ent(EntityDef.engine_def(q)) != eager[q]:
+                ck.violation('lazy-differs-from-eager:engine_def', f'EntityDef.engine_def({q!r}) differs from FGD.engine_dbase()',
+                             {'kind': 'lazy', 'query': q})
+            ck.count('search_lazy_lookups')
+        full = FGD.engine_dbase()
     bad = [k for k, e in full.entities.items() if canon_ent(e) != eager.get(k)]
     if bad:
         ck.violation('lazy-engine-dbase-after-lookups', f'FGD.engine_dbase() after individual look-ups differs for {bad[:5]}', {'kind': 'lazy', 'entities': bad[:10]})
@@ -2378,29 +2385,144 @@ def timed(label: str, fn: Callable[..., Any], *args: Any) -> Any:
             print(f'[C16 timing] {label}: {time.time() - t0:.1f}s', file=sys.stderr)
 
 
-def theorems_in_background(ck: Ck) -> Callable[[], None]:
-    """`ck.theorems` (Print Assumptions of every theorem: one coqc process, 15-20 s) runs while the correspondences run (other coqc
-    processes and Python).  The returned function waits for it and moves its obligations to where a sequential call would have put
-    them, so that the recorded order does not depend on timing."""
+INSTANCE_OBLIGATIONS = {
+    'escape_table_invertible': 'table_ok esc_pairs esc_excluded',
+    'longstring_limits_sane': 'limits_ok',
+    'longstring_empty_text_written_as_quotes': 'empty_quotes gen_cfg',
+    'longstring_hard_cut_never_strands_backslash': 'cut_guard gen_cfg',
+    'longstring_cfg_ok_is_these': 'cfg_ok_is_parts',
+    'longstring_loop_test_is_gt': 'op_is_gt ls_loop_op',
+    'longstring_newline_threshold_is_gt': 'op_is_gt ls_nl_op',
+    'longstring_newline_needle': 'needle1_ok',
+    'longstring_space_needle': 'needle2_ok',
+    'longstring_joiner': 'joiner_ok',
+    'plain_escape_replacements': 'std_repl_matches',
+    'unguarded_hard_cut_is_refuted': 'hard_cut_breaks',
+    'value_type_order_covers_enum': 'order_ok value_type_order value_types_all',
+    'file_type_order_covers_enum': 'order_ok file_type_order file_types_all',
+    'entflags_layout': 'entflags_layout_ok',
+    'entity_types_have_distinct_flags': 'entity_flags_distinct',
+    'bit_literals_are_128_127': 'bit_literals_ok',
+    'index_formats': 'index_formats_ok',
+    'shared_strings_fit_u16': 'N.ltb shared_strings 65536',
+    'binary_tables_fit_the_record_model': 'bin_tables_ok',
+    'binary_header_formats': 'header_formats_ok',
+    'binary_layout_kv_serialise': 'layout_kv_writer_ok',
+    'binary_layout_kv_unserialise': 'layout_kv_reader_ok',
+    'binary_layout_iodef': 'layout_io_ok',
+    'binary_layout_ent_serialise': 'layout_ent_writer_ok',
+    'binary_layout_ent_unserialise': 'layout_ent_reader_ok',
+    'text_kv_two_colons_before_description_without_default': '(colons_before_desc_without_default gen_line_cfg =? 2)%nat',
+    'text_kv_one_colon_between_default_and_description': '(kv_colons_after_default =? 1)%nat',
+    'text_bool_default_written_as_0': 'bool_default_filled gen_line_cfg',
+    'text_resources_block_written_when_defined': 'res_block_if_defined gen_line_cfg',
+    'text_line_cfg_ok_is_these': 'Bool.eqb (line_cfg_ok gen_line_cfg) ((colons_before_desc_without_default gen_line_cfg =? 2)%nat '
+                                 '&& bool_default_filled gen_line_cfg && res_block_if_defined gen_line_cfg)',
+    'text_empty_resources_need_the_block': 'empty_resources_need_block',
+    'lazy_bases_resolved_through_get_ent': 'lazy_via_get_ent',
+    'lazy_map_lookup_is_refuted': 'map_lookup_breaks',
+    'multi_db_engine_dbase_keeps_first_definition': 'merge_is_first engine_dbase_merge',
+    'multi_db_engine_def_returns_first_hit': 'engine_def_returns_first_hit',
+    'multi_db_modes_agree_is_these': 'Bool.eqb multi_modes_agree (merge_is_first engine_dbase_merge && engine_def_returns_first_hit)',
+    'multi_db_overwriting_merge_is_refuted': 'overwrite_merge_breaks',
+}
+
+
+class StageCk:
+    """What one tie stage (instance obligations, Print Assumptions, a correspondence) sees of the Ck while the stages run side by
+    side (each spends most of its time waiting for its own coqc process).  Everything a stage records is buffered here and merged
+    into the real Ck in the fixed order of the stage list, so that neither the recorded order nor any count depends on timing; the
+    stage draws from its OWN random stream (seed, stage name), and its budgets look only at the ties that were already broken when
+    the stages were started (translator/build), never at what a neighbour finds meanwhile."""
+
+    def __init__(self, ck: Ck, name: str) -> None:
+        self._ck, self.name = ck, name
+        self.rng = random.Random(f'{ck.seed}:{name}')
+        self._ties_before = bool(ck.tie_broken)
+        self.obligations: list[dict] = []
+        self.tie_broken: list[str] = []
+        self.notes: list[str] = []
+        self.extra: dict[str, Any] = {}
+        self.axioms: dict[str, list[str]] = {}
+        self._log: list[tuple] = []
+        self.error: Optional[BaseException] = None
+
+    def __getattr__(self, attr: str) -> Any:            # seed, tier, thorough, scratch, ...
+        return getattr(self._ck, attr)
+
+    def budget(self, quick: int, thorough: int) -> int:
+        return thorough if (self._ck.thorough or self._ties_before) else quick
+
+    def obligation(self, name: str, ok: bool, detail: str = '') -> None:
+        self.obligations.append({'name': name, 'ok': bool(ok), 'detail': detail[:4000]})
+
+    def count(self, key: str, n: int = 1) -> None:
+        self._log.append(('count', key, n))
+
+    def hist(self, group: str, key: Any, n: int = 1) -> None:
+        self._log.append(('hist', group, key, n))
+
+    def seen(self, case_key: Any) -> None:
+        self._log.append(('seen', case_key))
+
+    def sample(self, obj: Any, cap: int = 8) -> None:
+        self._log.append(('sample', obj, cap))
+
+    def violation(self, key: str, what: str, replay: Any, no_input: bool = False) -> None:
+        self._log.append(('violation', key, what, replay, no_input))
+
+    # harness methods that record through `self`: run them with this object as `self`
+    def coq_eval(self, *a: Any, **k: Any) -> Any:
+        return Ck.coq_eval(self, *a, **k)          # type: ignore[arg-type]
+
+    def coq_scratch(self, *a: Any, **k: Any) -> Any:
+        return Ck.coq_scratch(self._ck, *a, **k)
+
+    def instance_obligations(self, *a: Any, **k: Any) -> Any:
+        return Ck.instance_obligations(self, *a, **k)   # type: ignore[arg-type]
+
+    def theorems(self, *a: Any, **k: Any) -> Any:
+        return Ck.theorems(self, *a, **k)          # type: ignore[arg-type]
+
+    def merge(self) -> None:
+        ck = self._ck
+        ck.obligations.extend(self.obligations)
+        ck.tie_broken.extend(self.tie_broken)
+        ck.notes.extend(self.notes)
+        ck.axioms.update(self.axioms)
+        for k, v in self.extra.items():
+            ck.extra[k] = v
+        for ev in self._log:
+            getattr(ck, ev[0])(*ev[1:])
+
+
+def run_stages(ck: Ck, lanes: list[list[tuple[str, Callable[..., Any], tuple]]]) -> Callable[[], bool]:
+    """Start one thread per lane; a lane runs its stages one after the other.  Returns a function that waits for all of them, merges
+    what the stages recorded in the order of the lists (lane by lane) and says whether any of them broke a tie."""
     import threading
-    at = len(ck.obligations)
-    err: list[BaseException] = []
+    boxes = [[StageCk(ck, name) for name, _, _ in lane] for lane in lanes]
 
-    def work() -> None:
-        try:
-            timed('theorems', ck.theorems, 'Props/C16.v')
-        except BaseException as e:   # noqa: BLE001
-            err.append(e)
-    th = threading.Thread(target=work, name='c16-theorems')
-    th.start()
+    def work(lane: list[tuple[str, Callable[..., Any], tuple]], bxs: list[StageCk]) -> None:
+        for (_, fn, args), box in zip(lane, bxs):
+            try:
+                timed(box.name, fn, box, *args)
+            except BaseException as e:   # noqa: BLE001
+                box.error = e
+                return
+    threads = [threading.Thread(target=work, args=(lane, bxs), name=f'c16-lane{i}') for i, (lane, bxs) in enumerate(zip(lanes, boxes))]
+    for t in threads:
+        t.start()
 
-    def join() -> None:
-        th.join()
-        if err:
-            raise err[0]
-        mine = [o for o in ck.obligations if o['name'].startswith(('theorem:', 'assumptions:'))]
-        rest = [o for o in ck.obligations if not o['name'].startswith(('theorem:', 'assumptions:'))]
-        ck.obligations[:] = rest[:at] + mine + rest[at:]
+    def join() -> bool:
+        for t in threads:
+            t.join()
+        flat = [box for bxs in boxes for box in bxs]
+        for box in flat:
+            box.merge()
+        for box in flat:
+            if box.error is not None:
+                raise box.error
+        return any(box.tie_broken for box in flat)
     return join
 
 
@@ -2434,65 +2556,15 @@ def run(ck: Ck) -> None:
     built = ok_t and timed('build', ck.build, ['Props/C16.vo'])
     data = raw_db()
     tb = db_tables(data)
-    th_join: Callable[[], None] = lambda: None
+    join: Callable[[], bool] = lambda: False
     if built:
-        th_join = theorems_in_background(ck)
-        ck.instance_obligations(IMPORTS, {
-            'escape_table_invertible': 'table_ok esc_pairs esc_excluded',
-            'longstring_limits_sane': 'limits_ok',
-            'longstring_empty_text_written_as_quotes': 'empty_quotes gen_cfg',
-            'longstring_hard_cut_never_strands_backslash': 'cut_guard gen_cfg',
-            'longstring_cfg_ok_is_these': 'cfg_ok_is_parts',
-            'longstring_loop_test_is_gt': 'op_is_gt ls_loop_op',
-            'longstring_newline_threshold_is_gt': 'op_is_gt ls_nl_op',
-            'longstring_newline_needle': 'needle1_ok',
-            'longstring_space_needle': 'needle2_ok',
-            'longstring_joiner': 'joiner_ok',
-            'plain_escape_replacements': 'std_repl_matches',
-            'unguarded_hard_cut_is_refuted': 'hard_cut_breaks',
-            'value_type_order_covers_enum': 'order_ok value_type_order value_types_all',
-            'file_type_order_covers_enum': 'order_ok file_type_order file_types_all',
-            'entflags_layout': 'entflags_layout_ok',
-            'entity_types_have_distinct_flags': 'entity_flags_distinct',
-            'bit_literals_are_128_127': 'bit_literals_ok',
-            'index_formats': 'index_formats_ok',
-            'shared_strings_fit_u16': 'N.ltb shared_strings 65536',
-            'binary_tables_fit_the_record_model': 'bin_tables_ok',
-            'binary_header_formats': 'header_formats_ok',
-            'binary_layout_kv_serialise': 'layout_kv_writer_ok',
-            'binary_layout_kv_unserialise': 'layout_kv_reader_ok',
-            'binary_layout_iodef': 'layout_io_ok',
-            'binary_layout_ent_serialise': 'layout_ent_writer_ok',
-            'binary_layout_ent_unserialise': 'layout_ent_reader_ok',
-            'text_kv_two_colons_before_description_without_default': '(colons_before_desc_without_default gen_line_cfg =? 2)%nat',
-            'text_kv_one_colon_between_default_and_description': '(kv_colons_after_default =? 1)%nat',
-            'text_bool_default_written_as_0': 'bool_default_filled gen_line_cfg',
-            'text_resources_block_written_when_defined': 'res_block_if_defined gen_line_cfg',
-            'text_line_cfg_ok_is_these': 'Bool.eqb (line_cfg_ok gen_line_cfg) ((colons_before_desc_without_default gen_line_cfg =? 2)%nat '
-                                         '&& bool_default_filled gen_line_cfg && res_block_if_defined gen_line_cfg)',
-            'text_empty_resources_need_the_block': 'empty_resources_need_block',
-            'lazy_bases_resolved_through_get_ent': 'lazy_via_get_ent',
-            'lazy_map_lookup_is_refuted': 'map_lookup_breaks',
-            'multi_db_engine_dbase_keeps_first_definition': 'merge_is_first engine_dbase_merge',
-            'multi_db_engine_def_returns_first_hit': 'engine_def_returns_first_hit',
-            'multi_db_modes_agree_is_these': 'Bool.eqb multi_modes_agree (merge_is_first engine_dbase_merge && engine_def_returns_first_hit)',
-            'multi_db_overwriting_merge_is_refuted': 'overwrite_merge_breaks',
-        }, name='c16')
-        timed('data_obligations', data_obligations, ck, data, tb)
-        timed('corr_writer_reader', corr_writer_reader, ck)
-        timed('corr_bits', corr_bits, ck)
-        timed('corr_strdict', corr_strdict, ck)
-        timed('corr_binary_records', corr_binary_records, ck, data, tb)
-        timed('line_data_obligations', line_data_obligations, ck)
-        timed('corr_lines', corr_lines, ck)
         lazy_side = side.get('engine_db', {}).get('lazy', {})
-        timed('corr_lazy', corr_lazy, ck, data, tb, bool(lazy_side.get('via_get_ent', True)))
         multi_side = side.get('multi_db', {})
-        timed('corr_multi', corr_multi, ck, bool(lazy_side.get('via_get_ent', True)), bool(multi_side.get('effective_first', True)))
+        via = bool(lazy_side.get('via_get_ent', True))
         ck.extra['added_database_goes'] = multi_side.get('added_database_goes')
         # Information only: the model marks a block as decoded before its bases loop, as the source does today.  Marking it
         # afterwards is observably the same (ent_map already holds the block's definitions, so no look-up re-enters the block):
-        # no obligation, the lazy budgets are raised instead.
+        # no obligation, the budgets are raised instead.
         ck.extra['lazy_block_marked_before_bases_loop'] = bool(lazy_side.get('mark_before_resolve', True) and lazy_side.get('mark_after_decode', True))
         if not ck.extra['lazy_block_marked_before_bases_loop']:
             ck.notes.append('_parse_block no longer marks the block as decoded between the decoding loop and the bases loop: lazy budgets raised')
@@ -2500,15 +2572,36 @@ def run(ck: Ck) -> None:
         # informational: duplicates in the order lists (harmless, see c16_order_roundtrip)
         vo = side.get('engine_db', {}).get('vt_order', [])
         ck.extra['value_type_order_duplicates'] = sorted({x for x in vo if vo.count(x) > 1})
-    th_join()
-    timed('search_longstring', search_longstring, ck)
-    timed('search_bundled', search_bundled, ck)
-    timed('search_generated', search_generated, ck)
-    timed('search_binary', search_binary, ck, data)
-    timed('search_binary_small', search_binary_small, ck, tb['names'])
-    timed('search_lazy', search_lazy, ck, data, tb)
-    timed('search_lazy_synthetic', search_lazy_synthetic, ck)
-    timed('search_multi_db', search_multi_db, ck, data, tb)
+        # The tie stages are coqc processes plus case generation; the searches are pure Python.  Two lanes of tie stages run
+        # beside the searches (see StageCk: private random streams, buffered records, so nothing depends on timing).
+        join = run_stages(ck, [
+            [('theorems', lambda c: c.theorems('Props/C16.v'), ()),
+             ('instance_obligations', lambda c: c.instance_obligations(IMPORTS, INSTANCE_OBLIGATIONS, name='c16'), ()),
+             ('data_obligations', data_obligations, (data, tb)),
+             ('corr_writer_reader', corr_writer_reader, ()),
+             ('corr_bits', corr_bits, ()),
+             ('corr_strdict', corr_strdict, ())],
+            [('corr_binary_records', corr_binary_records, (data, tb)),
+             ('line_data_obligations', line_data_obligations, ()),
+             ('corr_lines', corr_lines, ()),
+             ('corr_lazy', corr_lazy, (data, tb, via)),
+             ('corr_multi', corr_multi, (via, bool(multi_side.get('effective_first', True))))],
+        ])
+
+    def searches() -> None:
+        timed('search_longstring', search_longstring, ck)
+        timed('search_bundled', search_bundled, ck)
+        timed('search_generated', search_generated, ck)
+        timed('search_binary', search_binary, ck, data)
+        timed('search_binary_small', search_binary_small, ck, tb['names'])
+        timed('search_lazy', search_lazy, ck, data, tb)
+        timed('search_lazy_synthetic', search_lazy_synthetic, ck)
+        timed('search_multi_db', search_multi_db, ck, data, tb)
+    searches()
+    if join():
+        # a tie stage found a disagreement while the searches ran with the small budgets: search again, escalated (ck.budget)
+        ck.notes.append('a tie was broken by a stage that ran beside the searches: searches repeated with the thorough budgets')
+        searches()
     keys = {v['key'] for v in ck.violations}
     # Failed obligations are explained by a concrete violation of the same mechanism (with a replayable input).
     if any(k.startswith('longstring:empty-text') or k.startswith('bundled-db-export-unparseable:empty-display-name') for k in keys):
